@@ -139,6 +139,22 @@ def maxId : Nat := 1000000
 
 variable {V T : Type}
 
+/-- `start.checked_add(off)`, then `read(pos ..)` (which demands `pos ≤ len`): the position and the
+    suffix the parser is handed -/
+def suffixAt (buf : Bytes) (start off : Nat) : Out (Nat × Bytes) :=
+  match checkedAdd start off with
+  | .ok pos =>
+    match readFrom buf pos with
+    | .ok suffix => .ok (pos, suffix)
+    | .err => .err | .panic => .panic | .oof => .oof
+  | .err => .err | .panic => .panic | .oof => .oof
+
+/-- the same with the stricter test of the `startxref` consumer: `if pos >= self.len() { bail!(..) }` -/
+def suffixAtStrict (buf : Bytes) (start off : Nat) : Out (Nat × Bytes) :=
+  match checkedAdd start off with
+  | .ok pos => if pos ≥ buf.length then .err else .ok (pos, buf.drop pos)
+  | .err => .err | .panic => .panic | .oof => .oof
+
 /-- the `while let Some(prev_xref_offset) = prev_trailer` loop -/
 def prevLoop (P : Parsers V T) (buf : Bytes) (start : Nat) :
     Nat → List Nat → Option Nat → Xref.Table → Out Xref.Table
@@ -147,19 +163,16 @@ def prevLoop (P : Parsers V T) (buf : Bytes) (start : Nat) :
   | fuel + 1, seen, some pv, t =>
     if seen.contains pv then .err
     else
-      match checkedAdd start pv with
-      | .ok pos =>
-        match readFrom buf pos with
-        | .ok suffix =>
-          match P.xrefAt suffix with
-          | .ok (subs, tr) =>
-            match Xref.addSubs t subs with
-            | .ok t' =>
-              match P.prevOf tr with
-              | none => .ok t'
-              | some (.ok pv') => prevLoop P buf start fuel (pv :: seen) (some pv') t'
-              | some .err => .err | some .panic => .panic | some .oof => .oof
-            | .err => .err | .panic => .panic | .oof => .oof
+      match suffixAt buf start pv with
+      | .ok (_, suffix) =>
+        match P.xrefAt suffix with
+        | .ok (subs, tr) =>
+          match Xref.addSubs t subs with
+          | .ok t' =>
+            match P.prevOf tr with
+            | none => .ok t'
+            | some (.ok pv') => prevLoop P buf start fuel (pv :: seen) (some pv') t'
+            | some .err => .err | some .panic => .panic | some .oof => .oof
           | .err => .err | .panic => .panic | .oof => .oof
         | .err => .err | .panic => .panic | .oof => .oof
       | .err => .err | .panic => .panic | .oof => .oof
@@ -168,28 +181,26 @@ def prevLoop (P : Parsers V T) (buf : Bytes) (start : Nat) :
 def loadTable (P : Parsers V T) (fuel : Nat) (buf : Bytes) (start : Nat) : Out (Xref.Table × T) :=
   match locateXref buf with
   | .ok x =>
-    match checkedAdd start x with
-    | .ok pos =>
-      if pos ≥ buf.length then .err
-      else
-        match P.xrefAt (buf.drop pos) with
-        | .ok (subs, trailer) =>
-          match P.sizeOf trailer with
-          | .ok size =>
-            if size > maxId then .err
-            else
-              match Xref.addSubs (Xref.newTable size) subs with
-              | .ok t =>
-                match P.prevOf trailer with
-                | none => .ok (t, trailer)
-                | some (.ok pv) =>
-                  match prevLoop P buf start fuel [] (some pv) t with
-                  | .ok t' => .ok (t', trailer)
-                  | .err => .err | .panic => .panic | .oof => .oof
-                | some .err => .err | some .panic => .panic | some .oof => .oof
-              | .err => .err | .panic => .panic | .oof => .oof
-          | .err => .err | .panic => .panic | .oof => .oof
+    match suffixAtStrict buf start x with
+    | .ok (_, suffix) =>
+      match P.xrefAt suffix with
+      | .ok (subs, trailer) =>
+        match P.sizeOf trailer with
+        | .ok size =>
+          if size > maxId then .err
+          else
+            match Xref.addSubs (Xref.newTable size) subs with
+            | .ok t =>
+              match P.prevOf trailer with
+              | none => .ok (t, trailer)
+              | some (.ok pv) =>
+                match prevLoop P buf start fuel [] (some pv) t with
+                | .ok t' => .ok (t', trailer)
+                | .err => .err | .panic => .panic | .oof => .oof
+              | some .err => .err | some .panic => .panic | some .oof => .oof
+            | .err => .err | .panic => .panic | .oof => .oof
         | .err => .err | .panic => .panic | .oof => .oof
+      | .err => .err | .panic => .panic | .oof => .oof
     | .err => .err | .panic => .panic | .oof => .oof
   | .err => .err | .panic => .panic | .oof => .oof
 
@@ -202,6 +213,56 @@ def finishStream (P : Parsers V T) (suffix : Bytes) (q : Nat) (info : V) (rel n 
     | .ok _ => .ok (.stream info (q + rel) (q + rel + n))
     | .err => .err | .panic => .panic | .oof => .oof
 
+/-- the `XRef::Raw` branch of `resolve_ref`; `resolveLen` is `resolve.resolve_flags(r, INTEGER, _)` -/
+def directBody (P : Parsers V T) (resolveLen : Nat → Out (Obj V)) (buf : Bytes) (start : Nat)
+    (flags : Flags) (pos : Nat) : Out (Obj V) :=
+  match suffixAt buf start pos with
+  | .ok (q, suffix) =>
+    match P.objAt flags suffix with
+    | .ok (.plain v) => .ok (.plain v)
+    | .ok (.stream info rel (.direct n)) => finishStream P suffix q info rel n
+    | .ok (.stream info rel (.indirect lid)) =>
+      match resolveLen lid with
+      | .ok (.plain v) =>
+        match P.asLen v with
+        | .ok n => finishStream P suffix q info rel n
+        | .err => .err | .panic => .panic | .oof => .oof
+      | .ok (.stream _ _ _) => .err
+      | .err => .err | .panic => .panic | .oof => .oof
+    | .ok (.stream _ _ .bad) => .err
+    | .err => .err | .panic => .panic | .oof => .oof
+  | .err => .err | .panic => .panic | .oof => .oof
+
+/-- the `XRef::Stream` branch of `resolve_ref` behind the guard; `container` is what
+    `resolve.get::<ObjectStream>(stream_id)` resolved the object stream's number to -/
+def compressedBody (P : Parsers V T) (container : Out (Obj V)) (buf : Bytes) (flags : Flags) (idx : Nat) :
+    Out (Obj V) :=
+  match container with
+  | .ok (.stream info a b) =>
+    match P.stmHead info with
+    | .ok (n, first) =>
+      match readRange buf a b with
+      | .ok raw =>
+        match P.decode info raw with
+        | .ok data =>
+          match ObjStm.parseHeader n data with
+          | .ok offsets =>
+            match ObjStm.getObjectSlice offsets first (.ok data) idx with
+            | .ok (d, s, e) =>
+              match ObjStm.memberSlice d s e with
+              | .ok slice =>
+                match P.parseMember flags slice with
+                | .ok v => .ok (.plain v)
+                | .err => .err | .panic => .panic | .oof => .oof
+              | .err => .err | .panic => .panic | .oof => .oof
+            | .err => .err | .panic => .panic | .oof => .oof
+          | .err => .err | .panic => .panic | .oof => .oof
+        | .err => .err | .panic => .panic | .oof => .oof
+      | .err => .err | .panic => .panic | .oof => .oof
+    | .err => .err | .panic => .panic | .oof => .oof
+  | .ok (.plain _) => .err
+  | .err => .err | .panic => .panic | .oof => .oof
+
 /-- `Storage::resolve_ref`; `chain` is the guard of `Resolve::get` (object streams being loaded). -/
 def resolveRef (P : Parsers V T) (buf : Bytes) (start : Nat) (t : Xref.Table) :
     Nat → List Nat → Flags → Nat → Out (Obj V)
@@ -209,53 +270,10 @@ def resolveRef (P : Parsers V T) (buf : Bytes) (start : Nat) (t : Xref.Table) :
   | fuel + 1, chain, flags, id =>
     match Xref.lookup t id with
     | .direct pos =>
-      match checkedAdd start pos with
-      | .ok q =>
-        match readFrom buf q with
-        | .ok suffix =>
-          match P.objAt flags suffix with
-          | .ok (.plain v) => .ok (.plain v)
-          | .ok (.stream info rel (.direct n)) => finishStream P suffix q info rel n
-          | .ok (.stream info rel (.indirect lid)) =>
-            match resolveRef P buf start t fuel chain .integer lid with
-            | .ok (.plain v) =>
-              match P.asLen v with
-              | .ok n => finishStream P suffix q info rel n
-              | .err => .err | .panic => .panic | .oof => .oof
-            | .ok (.stream _ _ _) => .err
-            | .err => .err | .panic => .panic | .oof => .oof
-          | .ok (.stream _ _ .bad) => .err
-          | .err => .err | .panic => .panic | .oof => .oof
-        | .err => .err | .panic => .panic | .oof => .oof
-      | .err => .err | .panic => .panic | .oof => .oof
+      directBody P (fun lid => resolveRef P buf start t fuel chain .integer lid) buf start flags pos
     | .compressed sid idx =>
       if chain.contains sid then .err
-      else
-        match resolveRef P buf start t fuel (sid :: chain) .any sid with
-        | .ok (.stream info a b) =>
-          match P.stmHead info with
-          | .ok (n, first) =>
-            match readRange buf a b with
-            | .ok raw =>
-              match P.decode info raw with
-              | .ok data =>
-                match ObjStm.parseHeader n data with
-                | .ok offsets =>
-                  match ObjStm.getObjectSlice offsets first (.ok data) idx with
-                  | .ok (d, s, e) =>
-                    match ObjStm.memberSlice d s e with
-                    | .ok slice =>
-                      match P.parseMember flags slice with
-                      | .ok v => .ok (.plain v)
-                      | .err => .err | .panic => .panic | .oof => .oof
-                    | .err => .err | .panic => .panic | .oof => .oof
-                  | .err => .err | .panic => .panic | .oof => .oof
-                | .err => .err | .panic => .panic | .oof => .oof
-              | .err => .err | .panic => .panic | .oof => .oof
-            | .err => .err | .panic => .panic | .oof => .oof
-          | .err => .err | .panic => .panic | .oof => .oof
-        | .ok (.plain _) => .err
-        | .err => .err | .panic => .panic | .oof => .oof
+      else compressedBody P (resolveRef P buf start t fuel (sid :: chain) .any sid) buf flags idx
     | .freeObject => .err
     | .nullRef => .err
     | .unspecified => .err
